@@ -152,6 +152,26 @@ impl Property for C09 {
             2 => vec!["t/".to_string()],
             _ => vec!["t".to_string(), "./t".to_string()],
         };
+        // a starting point with directory components: -execdir must still run in its parent
+        let mut starts = starts;
+        if !mutate && rng.chance(1, 4) {
+            let deep: Vec<&crate::tree::Node> = spec.nodes.iter().filter(|n| n.path().contains('/') && !n.path().contains(crate::tree::RAW_SENTINEL)).collect();
+            if !deep.is_empty() {
+                let n = *rng.pick(&deep);
+                let is_dir = matches!(n, crate::tree::Node::Dir { .. });
+                let p = n.path().to_string();
+                let st = match rng.weighted(&[5, 2, if is_dir { 2 } else { 0 }]) {
+                    0 => p,
+                    1 => format!("./{p}"),
+                    _ => format!("{p}/"),
+                };
+                if rng.chance(1, 2) {
+                    starts = vec![st];
+                } else {
+                    starts.push(st);
+                }
+            }
+        }
         let ntempl = rng.small(0, 4);
         let mut templates: Vec<String> = (0..ntempl).map(|_| gen_template(rng)).collect();
         if rng.chance(1, 6) {
@@ -256,6 +276,9 @@ impl Property for C09 {
         account_find(&obs, rep);
         if sc.execdir {
             rep.probe("execdir");
+            if sc.starts.iter().any(|s| s.trim_start_matches("./").trim_end_matches('/').contains('/')) {
+                rep.probe("execdir_starting_point_with_directory_components");
+            }
         }
         if sc.find.tree.raw_byte.is_some() && sc.find.tree.nodes.iter().any(|n| n.path().contains(tree::RAW_SENTINEL)) {
             rep.probe("file_name_not_valid_utf8");
@@ -536,7 +559,10 @@ impl Property for C09 {
                 }
             }
         }
-        let protect: Vec<String> = std::iter::once("t".to_string()).chain(sc.find.mutations.iter().map(|m| m.path.trim_end_matches(".new").to_string())).collect();
+        let protect: Vec<String> = std::iter::once("t".to_string())
+            .chain(sc.find.mutations.iter().map(|m| m.path.trim_end_matches(".new").to_string()))
+            .chain(sc.starts.iter().map(|s| s.trim_start_matches("./").trim_end_matches('/').to_string()))
+            .collect();
         for t in shrink_tree(&sc.find.tree, &protect) {
             let mut s = sc.clone();
             s.find.tree = t;
